@@ -55,6 +55,7 @@ type Config struct {
 	Sync                                                      bool // C05: run a synchronous phase after the async prefix
 	AsyncSteps                                                int
 	TwinGap, TwinHorizon                                      int
+	Ghost                                                     bool // C06 tally mode: two real nodes, all other stake held by simulator-crafted voters
 }
 
 // Node is one network participant; its ledger and wall clock survive crashes.
@@ -132,6 +133,9 @@ type Sim struct {
 	maxPeriod map[basics.Round]uint64 // highest period seen in honest-originated votes per round
 	batchOwn  map[int][]UVote // own attest votes emitted in the reaction being collected
 	shadowSeq int
+	ghostSent   map[string][]PValue // ghost account|r|p|step -> values already voted
+	ghostEqStake uint64
+	ghostEq     map[int]bool
 	avv         *agreement.AsyncVoteVerifier
 	avvPool     *simPool
 	known       []kernel.Violation
@@ -227,6 +231,24 @@ func drawConfig(tp *kernel.Tape, prop, tier string) Config {
 		}
 		c.Craft = tp.Chance("cfg.craft", 1, 2)
 	}
+	if prop == "C06" && tp.Chance("cfg.ghost", 1, 2) {
+		// Tally mode: the property is about what ONE node does with the votes it is given, not about
+		// safety among honest nodes, so here most of the stake is held by simulator-crafted voters
+		// ("ghosts") that vote, duplicate and equivocate in arbitrary patterns and orders.
+		c.Ghost = true
+		c.Nodes = 2
+		c.Accts = [][]int{{0}, {1}}
+		c.AdvInst = 0
+		c.AdvAccts = nil
+		ng := tp.Range("cfg.ghosts", 5, 9)
+		for j := 0; j < ng; j++ {
+			c.AdvAccts = append(c.AdvAccts, 2+j)
+		}
+		idx = 2 + ng
+		c.Craft = true
+		c.Rounds = tp.Range("cfg.grounds", 1, 2)
+		c.MaxSteps = 3000
+	}
 	// stakes: honest accounts 50..150 units; adversary total <= 20% of all stake
 	c.Stake = make([]uint64, idx)
 	var honestTotal uint64
@@ -236,7 +258,11 @@ func drawConfig(tp *kernel.Tape, prop, tier string) Config {
 			honestTotal += c.Stake[a]
 		}
 	}
-	if len(c.AdvAccts) > 0 {
+	if c.Ghost {
+		for _, a := range c.AdvAccts {
+			c.Stake[a] = uint64(tp.Range("cfg.gstake", 40, 400)) * 1_000_000_000
+		}
+	} else if len(c.AdvAccts) > 0 {
 		pct := uint64(tp.Range("cfg.advpct", 5, 20)) // adversary share of TOTAL stake, percent
 		advTotal := honestTotal * pct / (100 - pct)
 		for _, a := range c.AdvAccts {
@@ -270,6 +296,9 @@ func drawConfig(tp *kernel.Tape, prop, tier string) Config {
 			c.SlowFlush = tp.Chance("cfg.slowflush2", 3, 4)
 		}
 		c.DBErr = tp.Chance("cfg.dberr", 1, 4)
+	}
+	if c.Ghost {
+		c.WCrash, c.WTrig, c.MaxCrashes, c.WPart, c.WStarve = 0, 0, 0, 0, 0
 	}
 	if prop == "C07" {
 		c.SlowFlush = false // a twin must be forked when the crash DB equals the in-memory state; delayed persistence breaks that premise
@@ -600,7 +629,7 @@ func (s *Sim) restart(n *Node) {
 	s.stat("restart", 1)
 }
 
-func (s *Sim) linkOK(a, b int) bool { return s.nodes[a].group == s.nodes[b].group }
+func (s *Sim) linkOK(a, b int) bool { return a < 0 || s.nodes[a].group == s.nodes[b].group }
 
 func (s *Sim) partitioned() bool {
 	for _, n := range s.nodes {
@@ -819,8 +848,11 @@ func (s *Sim) asyncStep() {
 		fw[fPart] = 4 // partitions heal after a few hundred steps on average
 	}
 	fw[fStarve] = c.WStarve
-	if c.Craft && c.AdvInst > 0 {
+	if c.Craft && (c.AdvInst > 0 || c.Ghost) {
 		fw[fCraft] = 15
+		if c.Ghost {
+			fw[fCraft] = 700
+		}
 		if c.Prop == "C04" {
 			fw[fCraft] = 45 // tampering is the fault this property is about
 		}
@@ -886,7 +918,11 @@ func (s *Sim) asyncStep() {
 		s.stat("stall", 1)
 		return
 	case fCraft:
-		s.craftAction(rA, rB, rC)
+		if c.Ghost {
+			s.ghostAction(rA, rB, rC)
+		} else {
+			s.craftAction(rA, rB, rC)
+		}
 		return
 	}
 	// ---- benign scheduling decision (option 0 = deliver the oldest deliverable message)
